@@ -99,6 +99,15 @@ theorem cellD_class (bits : Nat) (s : S) (P : Nat → Bool) (o : Option Op)
     · rw [cellD_of_not_ascii bits s ha]; simpa using h'
     · rw [h' n ha] at hn; cases hn
 
+/-- a property of the cell of state `s` for EVERY character code, from a finite check -/
+theorem cellD_all (bits : Nat) (s : S) (Q : Option Op → Bool)
+    (h : ((ascii.all fun n => Q (cellD bits s n)) && Q (cellD bits s other)) = true) : ∀ n, Q (cellD bits s n) = true := by
+  intro n
+  simp only [Bool.and_eq_true] at h
+  by_cases ha : n ∈ ascii
+  · exact (List.all_eq_true.mp h.1) n ha
+  · rw [cellD_of_not_ascii bits s ha]; exact h.2
+
 end Spec
 
 namespace Lex
